@@ -409,11 +409,32 @@ def run(ctx, st):
             same = _texts_equal(o1.pieces, o2.pieces) if ctx.symbolic else (o1.text == o2.text)
         else:
             same = (o1.kind == o2.kind) and (type(o1.exc) is type(o2.exc))
-        for s in sites:
-            ctx.check('C18/%s@%s' % (k, s), same, '%s: %s / %s' % (name, o1.text if o1.kind == 'text' and not ctx.symbolic else o1.kind,
-                                                                   o2.text if o2.kind == 'text' and not ctx.symbolic else o2.kind))
+        where = _where(ctx, k, name, o1, o2)
+        ctx.check('C18/%s@%s' % (k, where), same, '%s (read in %s): %s / %s' % (
+            name, ', '.join(sites), o1.text if o1.kind == 'text' and not ctx.symbolic else o1.kind,
+            o2.text if o2.kind == 'text' and not ctx.symbolic else o2.kind))
     _darwin_values(ctx, name, a, o1)
     ctx.reach()
+
+
+def _where(ctx, kind, name, o1, o2):
+    """what identifies a host dependence in a label: the consulted host attribute and the decoder; for the error-name table,
+    when the two platforms' texts differ in the result part only, 'result-part/<decoder family>' - every BSC decoder shares
+    that dependence, and which helper function performs the lookup is an implementation detail (two behaviour-preserving
+    refactorings moved it and were reported under a new function name)"""
+    if kind == 'errno' and o1.kind == 'text' and o2.kind == 'text':
+        c1 = sweep.split_call(o1.pieces if ctx.symbolic else [o1.text])
+        c2 = sweep.split_call(o2.pieces if ctx.symbolic else [o2.text])
+        if c1.ok and c2.ok and c1.name == c2.name and len(c1.params) == len(c2.params):
+            if ctx.symbolic:
+                from vxlib.symx.core import eng
+                cond = And(*[sweep.pieces_equal(p, q) for p, q in zip(c1.params, c2.params)])
+                same_call = cond is True or (cond is not False and eng().must(cond))
+            else:
+                same_call = c1.params == c2.params
+            if same_call:
+                return 'result-part/' + name.split('_')[0]
+    return name
 
 
 def _darwin_values(ctx, name, a, o):
